@@ -11,12 +11,40 @@ def gen_cfg(inv):
     return "INIT GenInit\nNEXT GenNext\nINVARIANT %s\nCHECK_DEADLOCK FALSE\n" % inv
 
 
+def mc(pid, module, constants, workers=None, timeout=1500):
+    """Model check of the reference codec on itself.  vlib.tlc_mc is not used because `-coverage` instruments every
+    evaluation of the (deeply recursive) codec operators and makes this model ~50x slower; vacuity is excluded by
+    the caller from the number of states and the depth (one state per value)."""
+    wd = vlib.workdir(pid)
+    cfg = os.path.join(wd, module + ".cfg")
+    vlib.write_cfg(cfg, MC_CFG, constants)
+    rc, out, wall = vlib._java(module + ".tla", cfg, os.path.join(wd, "meta_" + module), workers or vlib.NCPU, timeout=timeout, xmx=vlib.XMX)
+    with open(os.path.join(wd, module + ".mc.log"), "w") as f:
+        f.write(out)
+    st = vlib.parse_stats(out)
+    st["wall_s"] = round(wall, 1)
+    if rc == -9:
+        raise vlib.ToolError("TLC timed out on %s" % module)
+    if "Model checking completed. No error has been found." not in out:
+        import sys
+        sys.stdout.write("\n".join(l for l in out.splitlines() if not re.match(r"^\s*\|*line ", l))[-4000:] + "\n")
+        raise vlib.ToolError("TLC reports an error in the model %s itself (spec defect, not an implementation violation)" % module)
+    vlib.log("TLC %s: %d generated, %d distinct, depth %d, %.1fs" % (module, st["generated"], st["distinct"], st["depth"], wall))
+    return st
+
+
 def slug(msg, n=8):
     return "_".join([w for w in re.split(r"[^A-Za-z0-9]+", msg or "") if w][:n])
 
 
-def kind_of(run):
-    """component:kind of the value / input a run is about"""
+def kind_of(run, ev=None):
+    """component:kind of the value / input a run is about (taken from the offending event when it says so itself)"""
+    if ev is not None:
+        if ev.get("ev") == "panic":
+            role = (ev.get("in") or {}).get("role") if isinstance(ev.get("in"), dict) else None
+            return "%s%s" % (ev.get("c"), (":" + role) if role else "")
+        if ev.get("ev") in ("params", "penc", "pdec"):
+            return "params:%s" % ev["role"]
     for e in run:
         ev = e.get("ev")
         if ev == "enc":
@@ -42,7 +70,7 @@ def signature(pid, rej):
     run, at = rej["run"], rej["at"]
     ev = run[at - 1] if 0 < at <= len(run) else {"ev": "eof"}
     name = rej["reason"].split()[0]
-    k = kind_of(run)
+    k = kind_of(run, ev)
     if ev.get("ev") == "panic":
         return ("%s/Wire/%s/panic/%s/%s" % (pid, k, ev["op"][0], ev.get("slug") or slug(ev.get("msg"))),
                 "panic in %s on %s: %s" % (ev["op"][0], json.dumps(ev.get("in"))[:300], (ev.get("msg") or "")[:300]))
@@ -89,9 +117,41 @@ def input_line(inputs, idx):
     return None
 
 
+def validate_soft(pid, trace, nchunks=None):
+    """Trace_Wire has only soft statements, so one TLC pass per chunk judges every event.  (vlib.validate_traces keeps at most
+    200 soft violations per chunk, which would let many hits of a known finding hide an unknown violation.)"""
+    from concurrent.futures import ThreadPoolExecutor
+    import shutil, time
+    wd = vlib.workdir(pid)
+    cfg = os.path.join(wd, "Trace_Wire.cfg")
+    vlib.write_cfg(cfg, TRACE_CFG)
+    cdir = os.path.join(wd, "chunks_Trace_Wire_" + os.path.basename(trace))
+    shutil.rmtree(cdir, ignore_errors=True)
+    chunks, nruns, nevents = vlib.split_runs(trace, nchunks or max(vlib.TRACE_CHUNKS, min(vlib.NCPU, 8)), cdir)
+    if nruns == 0:
+        raise vlib.ToolError("trace file %s contains no runs" % trace)
+    t = time.time()
+
+    def work(item):
+        idx, (path, runs) = item
+        rc, out = vlib._validate_file(pid, "Trace_Wire", cfg, path, idx, 3000)
+        if rc == -9:
+            raise vlib.ToolError("trace validation timed out")
+        d = vlib._diagnose(out, sum(len(r) for r in runs))
+        if d is not None:
+            raise vlib.ToolError("Trace_Wire could not evaluate a recorded event (line %s of %s): %s" % (d[0], path, d[1][-1200:]))
+        return vlib._soft(out, runs)
+
+    with ThreadPoolExecutor(max_workers=vlib.NCPU) as ex:
+        rejected = [x for part in ex.map(work, enumerate(chunks)) for x in part]
+    shutil.rmtree(cdir, ignore_errors=True)
+    vlib.log("Trace validation Trace_Wire: %d runs, %d events, %d rejected, %.1fs" % (nruns, nevents, len(rejected), time.time() - t))
+    return {"runs": nruns, "events": nevents, "rejected": rejected, "wall_s": round(time.time() - t, 1)}
+
+
 def validate(pid, rep, part, mode, inputs, trace, is_hit, extra=()):
     run_harness(pid, rep, mode, inputs, trace, extra)
-    r = vlib.validate_traces(pid, "Trace_Wire", TRACE_CFG, trace, max_violations=1 << 30)
+    r = validate_soft(pid, trace)
     nontrivial = count_hits(trace, is_hit)
     rep.add_traces(part, r["runs"], nontrivial, r["events"])
     with open(trace) as f:
@@ -101,11 +161,14 @@ def validate(pid, rep, part, mode, inputs, trace, is_hit, extra=()):
             if isinstance(e[k], list) and len(e[k]) > 40:
                 e[k] = "[%d items]" % len(e[k])
     rep.sample({"part": part, "first_events": lines})
+    seen = {}
     for rej in r["rejected"]:
         sig, what = signature(pid, rej)
         inp = input_line(inputs, rej["run"][0].get("id", -1)) if rej["run"] else None
-        rep.violation(sig, what, {"component": "wire", "mode": mode, "extra": list(extra), "input": inp,
-                                  "rejected_at": rej["at"], "reason": rej["reason"], "trace": rej["run"]})
+        seen[sig] = seen.get(sig, 0) + 1
+        keep = seen[sig] <= 3      # every occurrence is counted; the recorded run is stored for the first three of a signature
+        rep.violation(sig, what, {"component": "wire", "mode": mode, "extra": list(extra), "input": inp if keep else None,
+                                  "rejected_at": rej["at"], "reason": rej["reason"], "trace": rej["run"] if keep else []})
     return r
 
 
@@ -143,7 +206,7 @@ def replay(pid, path):
         print("  reproduced: the decoder did not return")
         print("VIOLATION property=%s replay=%s" % (pid, path))
         return 1
-    r = vlib.validate_traces(pid, "Trace_Wire", TRACE_CFG, trace, nchunks=1, max_violations=1 << 30)
+    r = validate_soft(pid, trace, nchunks=1)
     sigs = [signature(pid, rej) for rej in r["rejected"]]
     for s, what in sigs:
         print("  reproduced: %s — %s" % (s, what))
